@@ -1146,12 +1146,12 @@ func c17MapErr(c *core.Ctx) {
 // c17MaskedArg: Argmax/Argmin of masked tensors. No property fixes what a masked arg-reduction returns, so nothing is compared
 // with a model; the element types must agree with each other (the same template instantiated per type).
 func c17MaskedArg(c *core.Ctx) {
-	for _, shape := range [][]int{{6}, {2, 3}, {3, 2, 2}} {
+	for _, shape := range [][]int{{6}, {12}, {3, 4}, {3, 2, 2}} {
 		n := model.Size(shape)
 		vi := make([]int64, n)
 		mask := make([]bool, n)
 		for i := range vi {
-			vi[i] = int64((i*5 + 3) % 7)
+			vi[i] = int64((i*5 + 3) % 4) // few distinct values: the extremes are tied among the unmasked elements
 			mask[i] = i%3 == 1
 		}
 		for _, red := range []string{"Argmax", "Argmin"} {
